@@ -340,7 +340,19 @@ def main():
         pass
     try:
         import translate_src
-        gens["Source.v"] = translate_src.generate
+
+        def _source():
+            # fail closed: if the translator itself trips over the tree, emit an empty program (every source-tie obligation then breaks,
+            # the model and the other checks still build)
+            try:
+                return translate_src.generate()
+            except Exception as e:  # noqa
+                return ("(* GENERATED by harness/translate_src.py from /repo -- do not edit.  The translator failed: %s *)\n"
+                        "From Coq Require Import String.\nFrom CCT Require Import Prelude PySrc.\nOpen Scope N_scope.\nOpen Scope string_scope.\n"
+                        "Definition program : program := [].\nDefinition call_graph_acyclic : bool := false.\n"
+                        "Definition not_translated : list (string * string) := [].\nDefinition partial_entries : list (string * list string) := [].\n"
+                        "Definition entry_bodies : list (string * fundef) := [].\n" % (type(e).__name__,))
+        gens["Source.v"] = _source
     except ImportError:
         pass
     for name, g in gens.items():
